@@ -18,8 +18,11 @@ PROP = dict(
     assumptions=["ops counts operations written to the log (one per value for Add/Remove), opN the bits they changed (1 per single op, changed count for batch and roaring ops), as documented on roaring.Bitmap",
                  "snapshot bytes are the bitmap's own WriteTo output; the log starts empty after a snapshot",
                  "official payloads only address keys < 2^16 and hold at least one container"],
-    tags=["groar", "gr2", "c02"],
+    tags=["groar", "gr2", "c02", "gfrag"],
     units=[
         U("oplog", "./roaring", "^TestVerifC05_Machine$", 1000, 30000, steps=30, env=_ENV),
+        # fragment level (group gF): the data file of a real fragment (snapshot ++ appended log) vs fragment.storage, set and Ops(),
+        # at every quiescent point of gfrag-machine histories over all fragment kinds (harness/pkg/_root/c05_fragfile_test.go)
+        U("fragfile", ".", "^TestVerifC05_FragmentFile$", 800, 12000, sq=5, sth=14, timeout={"quick": 900, "thorough": 2400}),
     ],
 )
